@@ -77,7 +77,9 @@ theorem addLeaf_dinv {ts done done' : List Token} {b : Builder} (h : DInv ts don
     DInv ts done' { (b.addLeaf v).1 with spans := m', env := env' } := by
   have hprot := prot_of_next (g' := m'.get) hget
   obtain ⟨hcur, hpar⟩ := h.stack
-  refine ⟨hpre, ⟨?_, ?_⟩, h.eb, ?_, ?_⟩
+  have hpfx : PfxDesc ts m'.get env' ({ b.cur with rkids := .node v [] :: b.cur.rkids } :: b.parents) b.openPrefixes :=
+    pfxDesc_head (f := b.cur) rfl (pfxDesc_mono he _ _ (fun k hk => hprot k (.inr hk)) h.pfx)
+  refine ⟨hpre, ⟨?_, ?_⟩, hpfx, h.eb, ?_, ?_⟩
   · have hc' : FrameDesc ts m'.get env' b.nsStack (framesPath b.parents) b.cur :=
       frameDesc_mono he (fun k hk => hprot k (.inl (.inl hk)))
         (fun kind hkind => hprot ⟨framesPath b.parents, kind⟩ (.inr (.inl ⟨rfl, hkind⟩))) hcur
@@ -111,6 +113,7 @@ theorem mergeText_dinv {ts done : List Token} {b b' : Builder} (h : DInv ts done
     (hval : runValue [t] = some content) (hr : b.cur.rkids = .node (.text s) ks :: more)
     (hc : b'.cur = { b.cur with rkids := .node (.text (s ++ content)) ks :: more })
     (hp : b'.parents = b.parents) (henv : b'.env = b.env) (hns : b'.nsStack = b.nsStack) (heb : b'.eb = b.eb)
+    (hop : b'.openPrefixes = b.openPrefixes)
     (hs : b'.spans = b.spans.extendText (b.curPath ++ [more.length]) tsp.span) :
     DInv ts (done ++ [t]) b' := by
   obtain ⟨run, skips, sp, hsuf, hsk, hok, hv, hg⟩ := h.opn s ks more hr
@@ -129,7 +132,13 @@ theorem mergeText_dinv {ts done : List Token} {b b' : Builder} (h : DInv ts done
   obtain ⟨hcur, hpar⟩ := h.stack
   have hlen : (b.cur.rkids).length = more.length + 1 := by rw [hr]; rfl
   have hcp : b.curPath = framesPath b.parents := rfl
-  refine ⟨hpre, ?_, (by rw [heb]; exact h.eb), ?_, ?_⟩
+  have hpfx : PfxDesc ts b'.spans.get b'.env (b'.cur :: b'.parents) b'.openPrefixes := by
+    rw [hc, hp, henv, hop]
+    refine pfxDesc_head (f := b.cur) rfl (pfxDesc_mono (EnvApp.refl _) _ _ (fun k hk => hkey k (fun hkk => ?_)) h.pfx)
+    refine not_ownKey_of_length (b.cur :: b.parents) k ?_ hk
+    rw [hkk]
+    simp [Builder.curPath]
+  refine ⟨hpre, ?_, hpfx, (by rw [heb]; exact h.eb), ?_, ?_⟩
   · rw [hc, hp, henv, hns]
     refine ⟨?_, ?_⟩
     · -- the current frame
@@ -212,7 +221,9 @@ theorem leave_dinv {ts done done' : List Token} {b b1 b' : Builder} (h : DInv ts
     {id : Nat} (hel : b.cur.value = .element id) {e : ElementEnd} {sp : StrSpan}
     (htok : Token.elementEnd e sp ∈ ts) (hne : e ≠ .open)
     (hcur : b1.cur = b.cur) (hpar : b1.parents = b.parents) (hsp : b1.spans = b.spans) (heb : b1.eb = b.eb)
-    (hns : b1.nsStack = b.nsStack.tail) (he : EnvApp b.env b1.env)
+    (hns : b1.nsStack = b.nsStack.tail) (hop : b1.openPrefixes = b.openPrefixes.tail) (he : EnvApp b.env b1.env)
+    (hlink : ∀ p l, e = .close p l →
+      b.openPrefixes.head? = some p.text ∧ ∃ ns, b1.env.names[id]? = some (l.text, ns))
     (hr : b1.leave b.curPath sp = .ok b') : DInv ts done' b' := by
   unfold Builder.leave Builder.toParent at hr
   rw [hpar] at hr
@@ -222,7 +233,7 @@ theorem leave_dinv {ts done done' : List Token} {b b1 b' : Builder} (h : DInv ts
     rw [hp] at hr
     simp only [Step.ok.injEq] at hr
     subst hr
-    simp only [hcur, hsp, heb, hns]
+    simp only [hcur, hsp, heb, hns, hop]
     obtain ⟨hc, hps⟩ := h.stack
     rw [hp] at hc hps
     obtain ⟨hpf, hrest⟩ := hps
@@ -241,11 +252,26 @@ theorem leave_dinv {ts done done' : List Token} {b b1 b' : Builder} (h : DInv ts
     -- the closed element, described at its place
     have hc' := frameDesc_mono he (fun k hk => hprot k (.inl (.inl hk)))
         (fun kind hkind => hprot ⟨framesPath (p :: rest), kind⟩ (.inr (.inl ⟨rfl, hkind⟩))) hc
-    have hclosed := desc_close hel hc' ⟨e, sp, htok, hne, by rw [← hcp]; exact get_add_self _ _ _⟩
+    obtain ⟨⟨ps, ls, wsp, hstok, hsg, hshead, nss, hsname⟩, hprest⟩ := pfxDesc_element hel h.pfx
+    rw [hp] at hsg hprest
+    have hlnk : EndLink ts (b.spans.add ⟨b.curPath, .elementEnd⟩ sp.span).get (framesPath (p :: rest)) e := by
+      intro q l hql
+      obtain ⟨hh, ns', hn'⟩ := hlink q l hql
+      refine ⟨ps, ls, wsp, hstok, ?_, ?_, ?_⟩
+      · rw [hkey _ (fun hkk => by have h2 := congrArg SpanKey.kind hkk; cases h2)]; exact hsg
+      · rw [hshead] at hh; exact Option.some.inj hh
+      · obtain ⟨z, hz⟩ := he.nm
+        rw [hz, getElem?_append_of_some hsname] at hn'
+        have := Option.some.inj hn'
+        exact (congrArg Prod.fst this)
+    have hclosed := desc_close hel hc' ⟨e, sp, htok, hne, by rw [← hcp]; exact get_add_self _ _ _, hlnk⟩
     have hpf' := frameDesc_mono he (fun k hk => hprot k (.inl (.inr (.inl hk))))
         (fun kind hkind => hprot ⟨framesPath rest, kind⟩ (.inr (.inr (.inl ⟨rfl, hkind⟩)))) hpf
     have hval : b.cur.close.value = .element id := hel
-    refine ⟨hpre, ⟨?_, ?_⟩, h.eb, ?_, ?_⟩
+    have hpfx : PfxDesc ts (b.spans.add ⟨b.curPath, .elementEnd⟩ sp.span).get b1.env
+        ({ p with rkids := b.cur.close :: p.rkids } :: rest) b.openPrefixes.tail :=
+      pfxDesc_head (f := p) rfl (pfxDesc_mono he _ _ (fun k hk => hprot k (.inr (.inr hk))) hprest)
+    refine ⟨hpre, ⟨?_, ?_⟩, hpfx, h.eb, ?_, ?_⟩
     · exact frameDesc_cons hpf' (by rw [← framesPath_cons]; exact hclosed)
         (by rw [hval]; intro n w hh; cases hh) (by rw [hval]; intro q n hh; cases hh)
     · exact stackDesc_mono he rest _ (fun k hk => hprot k (prot_cons (prot_cons hk))) hrest
